@@ -6,6 +6,8 @@ import M17.Model.Golay
 import M17.Spec.Golay
 import M17.Model.Crc
 import M17.Spec.Crc
+import M17.Model.Cond
+import M17.Model.Puncture
 
 open M17
 
@@ -18,6 +20,12 @@ def showOptNat : Option Nat → String
 
 def joinInts (xs : List Int) : String := " ".intercalate (xs.map toString)
 def joinNats (xs : List Nat) : String := " ".intercalate (xs.map toString)
+
+def pmat (P : Nat) : List Nat :=
+  if P == 61 then Gen.p1 else if P == 12 then Gen.p2 else if P == 8 then Gen.p3
+  else if P == 3 then [1, 0, 1] else if P == 5 then [0, 1, 1, 0, 1] else []
+
+def bitsToInts (bs : List Bool) : List Int := bs.map fun b => if b then 1 else 0
 
 /-- state carried across lines (stateful components get a field each) -/
 structure DrvState where
@@ -43,6 +51,27 @@ def handle (st : DrvState) (op : String) (a : List Int) : DrvState × String :=
   | "crc", bs => (st, toString (Crc.crc (bs.map Int.toNat)))
   | "spec_crc", bs => (st, toString (Spec.crc16 (bs.map Int.toNat)))
   | "crc_bytes", bs => (st, joinNats (Crc.getBytes ((bs.map Int.toNat).foldl Crc.update Crc.reset)))
+  | "ileave_soft", v => (st, joinInts (Cond.interleaveSoft v))
+  | "deileave_soft", v => (st, joinInts (Cond.deinterleaveSoft v))
+  | "rand_soft", v => (st, joinInts (Cond.randSoft v))
+  | "rand_bits", v => (st, joinInts (Cond.randBits v))
+  | "ileave_bytes", v => (st, joinNats (Cond.interleaveBytes (v.map Int.toNat)))
+  | "deileave_bytes", v => (st, joinNats (Cond.deinterleaveBytes (v.map Int.toNat)))
+  | "rand_bytes", v => (st, joinNats (Cond.randBytes (v.map Int.toNat)))
+  | "punct", P :: n_in :: _ :: rest =>
+    let xs := rest.take n_in.toNat
+    let prev := rest.drop n_in.toNat
+    let (out, n) := Punct.puncture (pmat P.toNat) xs prev
+    (st, joinInts (Int.ofNat n :: out))
+  | "depunct", P :: n_in :: _ :: rest =>
+    let xs := rest.take n_in.toNat
+    let prev := rest.drop n_in.toNat
+    (st, joinInts (Punct.depuncture (pmat P.toNat) xs prev))
+  | "punct_bytes", P :: n_in :: _ :: rest =>
+    let xs := (rest.take n_in.toNat).map Int.toNat
+    let prev := (rest.drop n_in.toNat).map Int.toNat
+    let (out, n) := Punct.punctureBytes (pmat P.toNat) xs prev
+    (st, joinNats (n :: out))
   | _, _ => (st, "bad-op")
 
 partial def loop (h : IO.FS.Stream) (out : IO.FS.Stream) (st : DrvState) : IO Unit := do
